@@ -86,6 +86,7 @@ def sqrt_real(st, x, msg='sqrt of negative'):
     s = fresh_real('sqrt')
     X = to_z3(x)
     st.defs.append(z3.And(s >= 0, s * s == X))
+    st.sqrts.append((s, X))
     st.side.append((tuple(st.pc), X >= 0, msg))
     return s
 
